@@ -23,7 +23,8 @@ RULE = ('generated form documents (nested forms, fieldset/legend nesting with di
         'incl. case variants, name/checked/disabled/readonly/required/placeholder/contenteditable/dir combinations, radio groups '
         'inside/outside forms and across iframes, bidi text, dir=auto, twins) built through the bs4 API and parsed by html.parser, '
         'lxml, html5lib and (lower-case types) as XHTML; 17 pseudo-classes selected per document, 10 laws + 4 definitions + '
-        'select-vs-match.  Non-trivial = a law/definition instance whose sets are non-empty; distinct = distinct (law, document shape).')
+        'select-vs-match; per document the sets are obtained through one of six routes (module select, compiled object, pickled '
+        'compiled object, deep-copied compiled object, BeautifulSoup.select, compiled match per element).  Non-trivial = a law/definition instance whose sets are non-empty; distinct = distinct (law, document shape).')
 ASSUMPTIONS = [
     'input type=hidden is unspecified for the :enabled/:disabled coverage law; foreign (non-HTML-namespace) elements are outside '
     'the :read-write/:read-only and :dir laws',
@@ -76,16 +77,43 @@ def build(rng):
     return tops, how, how
 
 
-def check_doc(sv, d, kind, open_keys, stats):
+VIAS = ['module', 'module', 'compiled', 'pickled', 'deepcopied', 'bs4', 'match-compiled']
+_objs = {}
+
+
+def selector_via(sv, sel, via):
+    """The callable that selects - the laws must hold through every route a user can take to the same selector."""
+    import copy
+    import pickle
+    if via == 'module':
+        return lambda d: sv.select(sel, d)
+    if via == 'bs4':
+        return lambda d: d.select(sel)
+    if (sel, via) not in _objs:
+        c = sv.compile(sel)
+        if via == 'pickled':
+            c = pickle.loads(pickle.dumps(c, protocol=len(sel) % (pickle.HIGHEST_PROTOCOL + 1)))
+        elif via == 'deepcopied':
+            c = copy.deepcopy(c)
+        _objs[(sel, via)] = c
+    c = _objs[(sel, via)]
+    if via == 'match-compiled':
+        import bs4
+        return lambda d: [e for e in d.descendants if isinstance(e, bs4.Tag) and c.match(e)]
+    return c.select
+
+
+def check_doc(sv, d, kind, open_keys, stats, via='module'):
     """Returns (violations, known-finding hits) as lists of dicts."""
     import bs4
+    stats['via:' + via] = stats.get('via:' + via, 0) + 1
     els = [e for e in d.descendants if isinstance(e, bs4.Tag)]
     ID = {id(e): e for e in els}
     html_els = {i for i, e in ID.items() if kind != 'xhtml' or e.namespace == NS_XHTML}
     out, hits = [], []
     R = {}
     for sel in SELS:
-        st, r = monitors.guarded_call(sv.select, sel, d)
+        st, r = monitors.guarded_call(selector_via(sv, sel, via), d)
         if st != 'ok':
             stats['raised'] = stats.get('raised', 0) + 1
             R[sel] = None
@@ -232,7 +260,8 @@ def run_unit(u):
             cn['materialise_failed'] = cn.get('materialise_failed', 0) + 1
             continue
         stats = {}
-        viol, hits = check_doc(sv, d, kind, open_keys, stats)
+        via = rng.choice(VIAS)
+        viol, hits = check_doc(sv, d, kind, open_keys, stats, via)
         nt_laws = stats.pop('_nontrivial_laws', [])
         for k, v in stats.items():
             cn[k] = cn.get(k, 0) + v
@@ -246,12 +275,13 @@ def run_unit(u):
             cn['known:' + h['key']] = cn.get('known:' + h['key'], 0) + 1
             if len([v for v in res['viol'] if v.get('known_key') == h['key']]) < 2:
                 res['viol'].append({'what': 'law "%s" fails on %s document: %r' % (h['law'], kind, h['info']), 'known_key': h['key'],
-                                    'tree': [t.to_json() for t in tops], 'how': how, 'kind': kind, 'selector': h['law'],
+                                    'tree': [t.to_json() for t in tops], 'how': how, 'kind': kind, 'selector': h['law'], 'via': via,
                                     'markup': trees.describe(d, 1200), 'class': sig('known', h['key'])})
         for v in viol:
             cn['VIOL'] = cn.get('VIOL', 0) + 1
             if len([x for x in res['viol'] if 'known_key' not in x]) < 8:
-                res['viol'].append({'what': 'law "%s" fails on %s document: %r' % (v['law'], kind, v['info']), 'tree': [t.to_json() for t in tops],
+                res['viol'].append({'what': 'law "%s" fails on %s document (selecting via %s): %r' % (v['law'], kind, via, v['info']),
+                                    'tree': [t.to_json() for t in tops], 'via': via,
                                     'how': how, 'kind': kind, 'selector': v['law'], 'markup': trees.describe(d, 1200),
                                     'class': sig(v['law'], kind)})
         if not viol and len(res['samples']) < 1:
@@ -269,7 +299,7 @@ def replay(w):
     import soupsieve as sv
     tops = [trees.from_json(j) for j in w['tree']]
     d = trees.materialise(tops, w['how'])
-    viol, hits = check_doc(sv, d, w['kind'], known.open_keys(ID), {})
+    viol, hits = check_doc(sv, d, w['kind'], known.open_keys(ID), {}, w.get('via', 'module'))
     if w.get('known_key'):
         return dict(w, status_now='known finding still present') if any(h['key'] == w['known_key'] for h in hits) else None
     return dict(w, status_now=viol[0]) if viol else None
@@ -282,6 +312,9 @@ def inconclusive(cn, tier):
     for k in ('api', 'html.parser', 'lxml', 'html5lib', 'xhtml'):
         if cn.get('kind:' + k, 0) < 100:
             out.append('document kind %s: only %d' % (k, cn.get('kind:' + k, 0)))
+    for v in set(VIAS):
+        if cn.get('via:' + v, 0) < 300:
+            out.append('route %s used only %d times' % (v, cn.get('via:' + v, 0)))
     if cn.get('match_compared', 0) < 10000:
         out.append('select-vs-match compared only %d times' % cn.get('match_compared', 0))
     if cn.get('raised', 0) > cn.get('documents', 0) // 20:
